@@ -37,6 +37,21 @@ CHECKS = {
          "For each in-memory stack (mem, frag, mbapp with and without fast path, string/varint/uintN mux, multiswarm, mapswarm, wlswarm, p2pkeswarm and nestings) two sender threads (same node or different nodes) Tell self-describing payloads of boundary sizes (0, 1, part-1, part, part+1, 2*part, MTU) as two-slice IOVecs and overwrite their buffers as soon as Tell returns; receiver callbacks hold the message across scheduling points, re-check it and scribble over it. Every schedule within the preemption bound is executed on the instrumented real code and every delivered (Src,Dst,Payload) must equal a told message of that source addressed to that node.",
          "Payload contents are patterns, not arbitrary bytes; for p2pke stacks the handshake runs deterministically before the explored phase; UDP/QUIC/SSH stacks are outside the scheduler (not covered by this check).",
          "5/C01", "gosched"),
+ "C02": ("model_checking",
+         "explicit-state BFS: adversary closure over real p2pke.Session objects (deliver anything to anyone, mutations, expiry, counter jump)",
+         "Universes: the honest pair; the honest pair plus an unrelated pair holding the same long-term keys (cross-session traffic); the honest pair with 8 byte-level mutations (counter flips, body/tag flips, truncation, header-only, extension, header splicing) within a deviation budget; the counter-limit universe (outbound counter moved to MaxNonce-2 through a hook). Every transition re-executes the real Session: accepted application data must be a payload the transcript-sharing peer sent on that very session and not delivered before; (session,counter) -> ciphertext must be single-valued for everything produced under the send cipher; no plaintext marker may appear in any emitted message; counters stay within [16, MaxNonce); an expired session must refuse. Closures are exhaustive except the counter-limit universe (depth-bounded).",
+         "Cryptographic primitives are trusted; Channel-level rotation and concurrent Send are not yet part of this check.",
+         "5/C02", "seqmc"),
+ "C03": ("model_checking",
+         "exhaustive enumeration of bounded Dolev-Yao attack scripts against real honest Sessions (attacker implements the wire protocol by hand)",
+         "Honest sessions of a and b in both roles; an attacker with key e that relays any honest handshake message to any honest session, crafts InitHello with genuine/stolen/mismatched claims under its own ephemeral, answers honest initiators with RespHello claiming e's, a's or b's key signed with its own signature, a wrong-purpose signature, an empty one or any signature captured from other handshakes, and continues with InitDone / RespDone / data under the keys it derived. Every script up to depth 3 (quick) / 4 (thorough) is executed; after every single delivery each honest session that IsReady, accepts data or agrees to Send must report e's key or the key of an honest party owning a session with the same channel binding; early data must not change state.",
+         "Signature unforgeability; the crafting menu is the attacker alphabet; longer scripts.",
+         "5/C03", "seqmc"),
+ "C06": ("model_checking",
+         "explicit-state BFS closure over emit/deliver/drop/duplicate/reorder/reflect actions on a genuine Session pair + fair suffix from every reachable state",
+         "All reachable states of (handshake indices, counters, pool of genuine messages, delivered data) under every schedule of emit / deliver-to-either-side / drop / send are enumerated to closure on real Sessions; on every transition: no panic, the handshake index never decreases, IsReady never reverts, Handshake() is idempotent and byte-stable; from every reached state the fair suffix (each side's current handshake message delivered once more in sequence) must make both sides ready and the very next data message each way must be delivered.",
+         "At most two data messages per direction; genuine messages only.",
+         "5/C06", "seqmc"),
  "C10": ("model_checking",
          "exhaustive enumeration (deviation-bounded DFS under the controlled scheduler) of fragment delivery orders, duplications and losses with the harness as the inner transport of the real fragswarm/mbapp",
          "Genuine fragments of 2-4 messages (2 and 3 parts, equal part counts, same ids from different sources, several ids from one source) are captured from real sender instances; an adversary thread then delivers them to a real receiver instance in every order (quick) or every order within a reorder budget (largest thorough configurations), duplicating or dropping up to 1-3 fragments, with 1 or 2 receive workers; every payload the receiver yields must be byte-identical to a message of the source it is attributed to and a message that lost a fragment must never be delivered.",
